@@ -74,6 +74,9 @@ def main():
     g = pick(lambda g: True); g[2]["hdrs"][0]["fpo"][2] += 1; tests.append(("header first pixel offset", g, 3))
     g = pick(lambda g: True); g[2]["hdrs"][0]["bo"] = "BIGENDIAN" if g[2]["hdrs"][0]["bo"] == "LITTLEENDIAN" else "LITTLEENDIAN"; tests.append(("header byte order", g, 3))
     g = pick(lambda g: True); g[2]["hdrs"][0]["dlen"] -= 1; tests.append(("data file one byte short", g, 3))
+    g = pick(lambda g: g[2]["hdrs"][0]["cal4"] > 0); g[2]["hdrs"][0]["cal4"] = -4; tests.append(("header without calibration factor", g, 3))
+    g = pick(lambda g: g[2]["hdrs"][0]["frames"]); g[2]["hdrs"][0]["frames"][0][2] += 1; tests.append(("header frame duration", g, 3))
+    g = pick(lambda g: g[2]["hdrs"][0]["orient"] == "head_in"); g[2]["hdrs"][0]["orient"] = "feet_in"; tests.append(("header patient orientation", g, 3))
     g = pick(lambda g: True); g[2]["ok"] = False; tests.append(("write reports failure", g, 3))
     g = pick(lambda g: True); del g[2]; tests.append(("Write line removed", g, 3))
     g = pick(lambda g: True); g[2], g[3] = g[3], g[2]; tests.append(("Write and Read swapped", g, 3))
